@@ -10,8 +10,21 @@ from . import dsim
 from .translate import recordings, split_sfv
 
 PROBE = "@SYS:MODELNAME=?"
-SPACING = 100000
-KEEPALIVE = 30000000
+SPACING = 100000  # the minimum the statement of C08 requires
+KEEPALIVE = 30000000  # the interval the statement of C12 names
+
+
+def code_spacing():
+    """COMMAND_SPACING of the code under test (regenerated), for rules that speak of 'one command spacing'"""
+    from .common import gen_params
+
+    return gen_params().get("p_spacing", SPACING)
+
+
+def code_keepalive():
+    from .common import gen_params
+
+    return gen_params().get("p_keepalive", KEEPALIVE)
 
 _REC = None
 
@@ -193,12 +206,12 @@ def mon_c01(s, require_all=True):
         enqs = [e for e in s.sim.events if e["k"] == "Enq" and (e.get("marker") is None or "KEEP" in e["marker"]) and e["t"] <= getattr(s, "idle_done_at", 0)]
         if enqs:
             t_last = max(e["t"] for e in enqs)
-            if getattr(s, "idle_done_at", 0) >= t_last + 2 * (len(enqs) + 2) * SPACING and getattr(s, "pre_close_writes", 0) < len(enqs):
+            if getattr(s, "idle_done_at", 0) >= t_last + 2 * (len(enqs) + 2) * max(SPACING, code_spacing()) and getattr(s, "pre_close_writes", 0) < len(enqs):
                 return f"after staying idle for {(s.idle_done_at - t_last) / 1e6:.1f} s, only {s.pre_close_writes} of {len(enqs)} submitted commands/probes were written"
     return None
 
 
-LOG_RE = re.compile(r"^(\d+\.\d{6}) (Send|Received): (.*)$", re.S)
+LOG_RE = re.compile(r"^(?:(\S+) )?(Send|Received): (.*)$", re.S)  # the statement fixes label and exact text, not the stamp
 
 
 def mon_c20(s):
@@ -218,7 +231,7 @@ def mon_c20(s):
             m = LOG_RE.match(item)
             if not m:
                 return f"malformed log entry {item!r}"
-            ents.append((m.group(2), m.group(3), float(m.group(1))))
+            ents.append((m.group(2), m.group(3), m.group(1)))
         # what the transport saw up to the moment the log was read
         evs = s.sim.events if upto is None else s.sim.events[:upto]
         sends = [bytes(e["data"])[:-2].decode("utf-8", "replace") for e in evs if e["k"] == "Write"]
@@ -341,15 +354,15 @@ def mon_c12(s):
     if len(w) >= 2:
         if not (w[0][1] == (PROBE + "\r\n").encode() and w[1][1] == (PROBE + "\r\n").encode()):
             return f"the first two transmissions after connecting are {w[0][1]!r}, {w[1][1]!r}, not two probes"
-        if w[0][0] != 0 or w[1][0] != SPACING:
+        if w[0][0] != 0 or w[1][0] != code_spacing():
             return f"the two start-up probes were written at {w[0][0]} and {w[1][0]} us"
     else:
         return "fewer than two transmissions after connecting"
     times = [x[0] for x in w if end is None or x[0] <= end]
     for a, b in zip(times, times[1:]):
-        if b - a > KEEPALIVE + SPACING:
+        if b - a > KEEPALIVE + code_spacing():
             return f"silent gap of {b - a} us between transmissions at {a} and {b}"
-    if end is not None and times and end - times[-1] > KEEPALIVE + SPACING:
+    if end is not None and times and end - times[-1] > KEEPALIVE + code_spacing():
         return f"nothing transmitted for {end - times[-1]} us before {end}"
     return None
 
